@@ -9,6 +9,7 @@ import Ww.Driver.C03
 import Ww.Driver.C13
 import Ww.Driver.Cook
 import Ww.Driver.Sched
+import Ww.Driver.LockWait
 import Ww.Driver.Fault
 import Ww.Driver.C20
 import Ww.Driver.C19
@@ -43,6 +44,7 @@ def dispatch (l : Line) : List Verdict :=
   | "retryreset" => handleRetryReset l
   | "ratelimit" => handleRateLimit l
   | "sched" => handleSched l
+  | "lockwait" => handleLockWait l
   | "fault" => handleFault l
   | "faultdry" => [Verdict.ok]
   | "start20" => handleStart20 l
